@@ -81,6 +81,12 @@ Theorem C20_enum_defaults_are_zero : forallb (fun e => snd e =? 0) gen_enum_firs
 Proof. vm_compute. reflexivity. Qed.
 Print Assumptions C20_enum_defaults_are_zero.
 
+(* no field of the bindings carries an explicit default value (proto3 has none: a field is omitted exactly when it holds
+   the zero value of its type) *)
+Theorem C20_no_explicit_defaults : gen_explicit_defaults = [].
+Proof. reflexivity. Qed.
+Print Assumptions C20_no_explicit_defaults.
+
 Theorem C20_module_tree_mirrors_packages : forallb (fun e => String.eqb (fst e) (snd e)) gen_modtree = true.
 Proof. vm_compute. reflexivity. Qed.
 Print Assumptions C20_module_tree_mirrors_packages.
